@@ -161,6 +161,12 @@ def run_stack(case, R):
     fn = case['fn']
     ref_ch = int(rng.integers(0, D))
     a = gen.cnormal(rng, (*full, D))
+    if rng.uniform() < 0.4:
+        # problems of very different level in one stack (a loud and a nearly silent bin / recording): no quantity of one problem may
+        # be measured against the others
+        lvl = 10 ** rng.uniform(-12, 12, size=(*full, 1, 1))
+        Px, Pn = Px * lvl, Pn * lvl
+        a = a * 10 ** rng.uniform(-6, 6, size=(*full, 1))
     calls = {
         'mvdr': (lambda px, pn, av: bf.get_mvdr_vector(av, pn), 'bins'),       # noise psd (bins, D, D), atf (..., bins, D)
         'souden': (lambda px, pn, av: bf.get_mvdr_vector_souden(px, pn, ref_channel=ref_ch), 'any'),
